@@ -3,6 +3,7 @@ import VrpProofs.Props.C09
 import VrpProofs.Props.C07
 import VrpProofs.Props.C07b
 import VrpProofs.Lemmas.SeqHeur
+import VrpProofs.Lemmas.SeqHeurInv
 
 /-!
 # C09 (sequence-based) — the construction heuristic returns a genuinely feasible solution or fails
@@ -83,7 +84,7 @@ theorem walk_of_SInv (J : SeqInst) (U : List Nat) (R : List (List Nat)) (used : 
     · rintro ⟨rfl, rfl⟩
       exact ⟨⟨by omega, by omega⟩, wOf_of_get hr hq⟩
 
-/-! ## statements to prove (replace every `sorry`) -/
+/-! ## statements to prove (the property statements) -/
 
 /-- **soundness of the sequence-based heuristic**: whenever `make_feasible` returns normally, the stored
     vector has one entry per variable of the *resulting* instance, is 0/1, and satisfies every linear and
@@ -169,6 +170,30 @@ theorem seq_makeFeasible_frame (I : SeqInst) (high : ℚ) (J : SeqInst) (sol : L
     (∀ i j, I.g.hasArc i j = true → J.g.hasArc i j = true) := by
   obtain ⟨hG, h1, h2, h3, h4⟩ := SeqHeur.makeFeasible_frame h
   exact ⟨hG.nodes, h1, h2, h3, h4, hG.mono⟩
+
+/-- **the resulting graph is again self-consistent**: every graph change of the heuristic goes through the
+    model's `addArcOrFail` / `ensureExit` (i.e. `gstep`), which preserve `C15.Inv`; no other hypothesis on the
+    instance is needed.  This is what allows the soundness theorem to be re-applied to a second invocation. -/
+theorem seq_makeFeasible_inv (I : SeqInst) (high : ℚ) (J : SeqInst) (sol : List ℚ)
+    (hg : C15.Inv I.g) (h : I.makeFeasible high = .ok (J, sol)) : C15.Inv J.g :=
+  SeqHeur.em_makeFeasible_inv hg h
+
+/-- the depot self-arc survives the heuristic (arcs are only added) -/
+theorem seq_makeFeasible_selfarc (I : SeqInst) (high : ℚ) (J : SeqInst) (sol : List ℚ)
+    (h : I.makeFeasible high = .ok (J, sol)) (h00 : I.g.hasArc 0 0 = true) : J.g.hasArc 0 0 = true :=
+  (seq_makeFeasible_frame I high J sol h).2.2.2.2.2 0 0 h00
+
+/-- **a second invocation is sound as well**: the hypotheses of `seq_makeFeasible_sound` are inherited by the
+    instance the first invocation returns, so whatever the second invocation returns is again a 0/1 vector of
+    the right length satisfying every constraint the final instance reports -/
+theorem seq_makeFeasible_twice_sound (I : SeqInst) (h₁ h₂ : ℚ) (J K : SeqInst) (s₁ s₂ : List ℚ)
+    (hL : 3 ≤ I.L) (hN : 1 ≤ I.g.nodes.length) (hg : C15.Inv I.g) (h00 : I.g.hasArc 0 0 = true)
+    (hIJ : I.makeFeasible h₁ = .ok (J, s₁)) (hJK : J.makeFeasible h₂ = .ok (K, s₂)) :
+    s₂.length = K.vars.length ∧ (∀ v ∈ s₂, v = 0 ∨ v = 1) ∧
+    ∀ d, K.data = some d → d.feasibleB (vecOf s₂) = true := by
+  obtain ⟨hnodes, _, hLJ, _, _, _⟩ := seq_makeFeasible_frame I h₁ J s₁ hIJ
+  exact seq_makeFeasible_sound J h₂ K s₂ (by rw [hLJ]; exact hL) (by rw [hnodes]; exact hN)
+    (seq_makeFeasible_inv I h₁ J s₁ hg hIJ) (seq_makeFeasible_selfarc I h₁ J s₁ hIJ h00) hJK
 
 /-- corollaries used by the property: QUBO values of the stored solution -/
 theorem seq_makeFeasible_qubo (I : SeqInst) (high : ℚ) (J : SeqInst) (sol : List ℚ)
